@@ -91,7 +91,7 @@ func HarnessC03Verify() {
 // HarnessC03Forest: the same adversarial claim against the forests' own verify methods, on states
 // reached by an honest history: Pollard.Verify, MapPollard.Verify (full), and
 // MapPollard.VerifyPartialProof on the partial forest (which completes the proof from its own
-// nodes).  which: 1 Pollard, 2 full map, 3 partial map.
+// nodes).  which: 1 Pollard, 2 full map, 3 partial map (VerifyPartialProof), 4 partial map (Verify).
 func HarnessC03Forest() {
 	w := newWorld()
 	w.history("C03.history", false)
@@ -101,17 +101,30 @@ func HarnessC03Forest() {
 	// the stand-alone verifier's root indexes identify the wrong-tree carve-out (F-C03-2)
 	idxs, errS := Verify(w.st, hs, proof)
 	which := verifParam("which", 1)
+	// twice=1: the claim is first verified with remember=true (whatever the answer) and the verdict
+	// that is judged is that of a second verification of the same claim on the same instance: a
+	// rejected claim must leave nothing behind that makes it acceptable afterwards
+	twice := verifParam("twice", 0) == 1
 	var err error
-	switch which {
-	case 1:
-		err = w.p.Verify(hs, proof, false)
-	case 2:
-		err = w.full.Verify(hs, proof, false)
-	case 3:
-		err = w.part.VerifyPartialProof(tg, hs, pf, false)
+	for round := 0; round < 2; round++ {
+		if round == 0 && !twice {
+			continue
+		}
+		remember := twice && round == 0
+		switch which {
+		case 1:
+			err = w.p.Verify(hs, proof, remember)
+		case 2:
+			err = w.full.Verify(hs, proof, remember)
+		case 3:
+			err = w.part.VerifyPartialProof(tg, hs, pf, remember)
+		case 4:
+			err = w.part.Verify(hs, proof, remember)
+		}
 	}
 	if err == nil {
-		if which != 3 {
+		wide := (which == 2 && w.full.TotalRows > v.rows) || (which == 4 && w.part.TotalRows > v.rows)
+		if which != 3 && !wide {
 			// same algorithm: the stand-alone verifier must agree on acceptance
 			verifAssert(errS == nil, "C03.forest.agrees-with-Verify")
 			if errS == nil {
@@ -123,7 +136,13 @@ func HarnessC03Forest() {
 			// when its hash is the true hash of a root of ANOTHER tree than the one its position lies in
 			// a map forest allocated for more rows also answers to positions in the allocated numbering
 			var alt *refView
-			if w.part.TotalRows > v.rows {
+			if which == 3 && w.part.TotalRows > v.rows {
+				alt = w.rm.viewRows(w.part.TotalRows)
+			}
+			if wide && which == 2 {
+				alt = w.rm.viewRows(w.full.TotalRows)
+			}
+			if wide && which == 4 {
 				alt = w.rm.viewRows(w.part.TotalRows)
 			}
 			for i := range tg {
